@@ -676,6 +676,8 @@ static int cif_value_clone_table(struct table_value_s *value, struct table_value
                     }
 
                     FAILURE_HANDLER(hash):
+                    /* the entry was not added to the map; release the value copy, if one was made */
+                    cif_value_clean(new_value);
                     free(new_entry->key_orig);
                 }
                 free(new_entry->key);
